@@ -189,7 +189,7 @@ Proof.
   { unfold e_outs. rewrite slots_cons. cbn -[Z.of_nat slots Z.leb List.length].
     cbn [List.length]. rewrite Nat2Z.inj_succ.
     destruct (Z.leb_spec 1 (Z.succ (Z.of_nat (List.length (slots r n))))) as [_|E]; [|lia]. reflexivity. }
-  rewrite H2. unfold after at 1. cbn [pmatch app List.length].
+  rewrite H2. unfold after at 1. cbn [pmatch tmap flatten app List.length].
   (* let value = value[0].assume_init(); the loop; Ok(Some(value)) *)
   set (env1 := ("other_outputs", MArr (slots r n)) :: ("value", MArr [m_dat pvv d]) :: e_filled (d :: r) :: e_outs (d :: r) n :: rest).
   assert (H3 : flatten (eval c (ELet (PVar "value") (EAssumeInit (EIndex (EVar "value") (ELit (VI 0))))
